@@ -80,6 +80,70 @@ def cmd_digests(prop, tier, seed, idxs):
     return 0
 
 
+def cmd_fresh(prop, tier, seed, idxs):
+    """(internal) Run the selected specs of a driver-based check in this fresh interpreter; print their digests."""
+    boot.boot()
+    from dst import runner, profiles
+
+    n = max(idxs) + 1
+    specs = profiles.specs_for(prop, seed, n, tier)
+    sel = [dict(specs[i], mode="digest_only", fresh=True) for i in idxs]
+    res = runner.run_batch(sel, [prop], nproc=16, timeout=profiles.run_timeout(prop), samples=0)
+    print(json.dumps({str(i): [(r or {}).get("decision_digest"), (r or {}).get("rows_digest")] for i, r in zip(idxs, res)}))
+    return 0
+
+
+def cmd_freshscen(path):
+    boot.boot()
+    from dst import runner
+
+    scen = json.load(open(path))
+    r = runner.run_batch([{"scenario": scen, "driver": "c11", "mode": "digest_only", "fresh": True, "timeout": 600}], ["C11"], nproc=1,
+                         timeout=600, samples=0)[0]
+    print(json.dumps([(r or {}).get("decision_digest"), (r or {}).get("rows_digest")]))
+    return 0
+
+
+def fresh_twins(prop, tier, seed, specs, results, entries):
+    """Twin executions in a fresh interpreter under another PYTHONHASHSEED: digests must agree."""
+    from dst import profiles, zoo
+    from dst.oracles import V
+
+    cfg = profiles.FRESH[prop]
+    idxs = [i for i, r in enumerate(results) if r is not None and r.get("decision_digest") and not r.get("harness_error")
+            and not r.get("build_error")]
+    if tier == "quick":
+        idxs = idxs[: max(60, len(idxs) // 6)]
+    if not idxs:
+        return [], 0
+    env = dict(os.environ, VERIF_HASHSEED=cfg["hashseed"], PYTHONHASHSEED=cfg["hashseed"])
+    cp = subprocess.run([sys.executable, os.path.abspath(__file__), "fresh", prop, tier, str(seed), ",".join(map(str, idxs))],
+                        capture_output=True, text=True, timeout=3000, env=env)
+    try:
+        fresh = json.loads(cp.stdout.strip().splitlines()[-1])
+    except Exception:
+        return [("harness", "fresh interpreter run failed: %s" % cp.stderr[-400:])], 0
+    out = []
+    for i in idxs:
+        a = [results[i].get("decision_digest"), results[i].get("rows_digest")]
+        b = fresh.get(str(i))
+        if b is None or b[0] is None:
+            continue
+        if a != b:
+            scen = _scenario_of(specs[i])
+
+            class _T:  # minimal stand-in for Trace.keys()
+                def keys(self_inner):
+                    return {"world": scen["world"], "kind": scen["kind"], "family": scen["kind"]}
+
+            v = V(prop, "R2.fresh_process_diverges", _T(),
+                  "run %d (%s): decisions/result table differ between this process and a fresh interpreter under PYTHONHASHSEED=%s "
+                  "with different global RNG state (%s vs %s)" % (i, scen["kind"], cfg["hashseed"], a, b), None,
+                  which="decisions" if a[0] != b[0] else "rows")
+            out.append((i, v))
+    return out, len(idxs)
+
+
 def selfcheck():
     boot.boot()
     from dst import seams, simkit, profiles
@@ -158,6 +222,17 @@ def cmd_check(prop, tier, n_override=None, budget_override=None, nproc=16):
         for v in allnew:
             if v["prop"] != prop:
                 other_new[(v["prop"], v["rule"])] += 1
+    # ---- fresh-interpreter twins (C11) --------------------------------------------
+    fresh_info = None
+    if prop in profiles.FRESH:
+        fv, ncmp = fresh_twins(prop, tier, seed, specs, results, entries)
+        fresh_info = {"compared": ncmp, "diverged": len([x for x in fv if x[0] != "harness"])}
+        for i, v in fv:
+            if i == "harness":
+                harness_errors.append({"harness_error": v})
+                continue
+            g = (v["rule"], json.dumps(v["keys"], sort_keys=True))
+            new_by_group.setdefault(g, []).append((dict(results[i], idx=i), v))
     # ---- minimise + replay every new violation group (bounded) ---------------
     violation_lines = []
     unreproduced = []
@@ -169,6 +244,8 @@ def cmd_check(prop, tier, n_override=None, budget_override=None, nproc=16):
         seen_rules[rule] += 1
         r, v = items[0]
         spec0 = specs[r["idx"]]
+        if v["rule"] == "R2.fresh_process_diverges":
+            spec0 = dict(spec0, mode="fresh_compare", timeout=900)
         scen = r.get("scenario") or _scenario_of(spec0)
 
         def still_fails(scens, rule=rule, spec0=spec0):
@@ -239,6 +316,7 @@ def cmd_check(prop, tier, n_override=None, budget_override=None, nproc=16):
             "runs_truncated_by_known_finding": truncated,
             "known_findings_matched": dict(known_counts),
             "determinism_selftest": det,
+            "fresh_interpreter_twins": fresh_info,
             "not_run_deadline": len(results) - len(done),
             "other_properties_new_violations_seen": {"%s/%s" % k: v for k, v in other_new.items()},
         },
@@ -310,6 +388,10 @@ def main():
     boot.reexec_if_needed()
     if len(sys.argv) >= 2 and sys.argv[1] == "replay":
         sys.exit(cmd_replay(sys.argv[2]))
+    if len(sys.argv) >= 2 and sys.argv[1] == "freshscen":
+        sys.exit(cmd_freshscen(sys.argv[2]))
+    if len(sys.argv) >= 2 and sys.argv[1] == "fresh":
+        sys.exit(cmd_fresh(sys.argv[2], sys.argv[3], int(sys.argv[4]), [int(x) for x in sys.argv[5].split(",")]))
     if len(sys.argv) >= 2 and sys.argv[1] == "digests":
         sys.exit(cmd_digests(sys.argv[2], sys.argv[3], int(sys.argv[4]), [int(x) for x in sys.argv[5].split(",")]))
     if "--selfcheck" in sys.argv:
